@@ -267,7 +267,29 @@ fn run(args: &Args, rep: &mut Report) {
                     }
                 }
                 Err(m) => {
-                    acc.fail(name, json!({"hex": rt::hex(&inputs[i])}), m);
+                    // shrink with a bounded number of worker invocations (4 processes each)
+                    let budget = std::cell::Cell::new(200u32);
+                    let min = vcore::drive::shrink_bytes(&inputs[i], |c| {
+                        if budget.get() == 0 {
+                            return false;
+                        }
+                        budget.set(budget.get() - 1);
+                        match run_workers(&[c.to_vec()]) {
+                            Ok(l) => {
+                                let l = [l[0][0].as_str(), l[1][0].as_str(), l[2][0].as_str(), l[3][0].as_str()];
+                                rt::guarded(|| judge(c, &l, &mut Acc::new())).is_err()
+                            }
+                            Err(_) => false,
+                        }
+                    });
+                    let msg = match run_workers(&[min.clone()]) {
+                        Ok(l) => {
+                            let l = [l[0][0].as_str(), l[1][0].as_str(), l[2][0].as_str(), l[3][0].as_str()];
+                            rt::guarded(|| judge(&min, &l, &mut Acc::new())).err().unwrap_or(m)
+                        }
+                        Err(_) => m,
+                    };
+                    acc.fail(name, json!({"hex": rt::hex(&min), "text": esc(&min)}), msg);
                     break;
                 }
             }
